@@ -1,4 +1,4 @@
 From PV Require Import C09.C09_Proofs.
-Theorem chan_exactly_once_unbuffered_refuted_witness : exists s, C09_Unbuf.urun false (C09_Unbuf.u_init f10_progs 1000) f10_sched = Some s /\ u_sent_true s (2, 0)%nat = true /\ C09_Common.count_val (2, 0)%nat (C09_Unbuf.u_taken s) = O /\ C09_Unbuf.u_taken s = ((3, 0)%nat :: nil) /\ C09_Unbuf.u_lost s = ((2, 0)%nat :: nil) /\ C09_Unbuf.u_slot s = None /\ u_done s 1%nat = true /\ u_done s 2%nat = true /\ u_asleep s 3%nat = true /\ C09_Unbuf.u_scv s = (3%nat :: nil) /\ C09_Unbuf.u_mtx s = None.
+Theorem chan_exactly_once_unbuffered_refuted_witness : f10_witness_stmt.
 Proof. exact f10_witness. Qed.
 Print Assumptions chan_exactly_once_unbuffered_refuted_witness.
